@@ -537,6 +537,35 @@ def seq_env(stmts, upto=None, env=None, keep=()):
             env[s.target.id] = _SubstEnv(env).visit(copy.deepcopy(s.value))
         elif isinstance(s, ast.AugAssign) and isinstance(s.target, ast.Name) and s.target.id in env:
             env[s.target.id] = ast.BinOp(left=env[s.target.id], op=s.op, right=_SubstEnv(env).visit(copy.deepcopy(s.value)))
+        elif _dict_update(s) is not None and _dict_update(s)[0] in env and _as_dict_literal(env[_dict_update(s)[0]]) is not None:
+            # d.update(k=v): the dictionary value with the entries added / replaced
+            nm_, items_ = _dict_update(s)
+            d_ = _as_dict_literal(env[nm_])
+            keys = [k.value for k in d_.keys]
+            vals = list(d_.values)
+            for k_, v_ in items_:
+                v_ = _SubstEnv(env).visit(copy.deepcopy(v_))
+                if k_ in keys:
+                    vals[keys.index(k_)] = v_
+                else:
+                    keys.append(k_)
+                    vals.append(v_)
+            env[nm_] = ast.Dict(keys=[ast.Constant(value=k_) for k_ in keys], values=vals)
+        elif isinstance(s, ast.Assign) and len(s.targets) == 1 and isinstance(s.targets[0], ast.Subscript) and isinstance(s.targets[0].value, ast.Name) \
+                and s.targets[0].value.id in env and isinstance(s.targets[0].slice, ast.Constant) and isinstance(s.targets[0].slice.value, str) \
+                and _as_dict_literal(env[s.targets[0].value.id]) is not None:
+            # d["k"] = v
+            d_ = _as_dict_literal(env[s.targets[0].value.id])
+            keys = [k.value for k in d_.keys]
+            vals = list(d_.values)
+            v_ = _SubstEnv(env).visit(copy.deepcopy(s.value))
+            k_ = s.targets[0].slice.value
+            if k_ in keys:
+                vals[keys.index(k_)] = v_
+            else:
+                keys.append(k_)
+                vals.append(v_)
+            env[s.targets[0].value.id] = ast.Dict(keys=[ast.Constant(value=x) for x in keys], values=vals)
         elif isinstance(s, ast.Assign) and len(s.targets) == 1 and isinstance(s.targets[0], ast.Subscript) and isinstance(s.targets[0].value, ast.Name) \
                 and s.targets[0].value.id in env and (is_full_slice(s.targets[0].slice) or (isinstance(s.targets[0].slice, ast.Constant) and s.targets[0].slice.value is Ellipsis)):
             # X[:] = v / X[...] = v : every element replaced (v broadcast into the shape of X)
@@ -662,12 +691,41 @@ def _simple_body(fnode):
         if isinstance(s, ast.Expr) and isinstance(s.value, ast.Call) and isinstance(s.value.func, ast.Attribute) and isinstance(s.value.func.value, ast.Name) \
                 and s.value.func.value.id in ("logger", "logging", "warnings"):
             continue
+        if isinstance(s, ast.Expr) and _dict_update(s) is not None:
+            keep.append(s)
+            continue
         if not isinstance(s, (ast.Assign, ast.AnnAssign)):
             return None
         keep.append(s)
     if fnode.args.vararg or fnode.args.kwarg:
         return None
     return keep + [body[-1]]
+
+
+def _dict_update(s):
+    """(name, [(key, value)]) for a statement `name.update(k=v, ...)` / `name.update({"k": v})` / `name["k"] = v`, else None"""
+    if isinstance(s, ast.Expr) and isinstance(s.value, ast.Call) and isinstance(s.value.func, ast.Attribute) and s.value.func.attr == "update" \
+            and isinstance(s.value.func.value, ast.Name):
+        c = s.value
+        items = []
+        if len(c.args) == 1 and isinstance(c.args[0], ast.Dict) and all(isinstance(k, ast.Constant) for k in c.args[0].keys):
+            items += [(k.value, v) for k, v in zip(c.args[0].keys, c.args[0].values)]
+        elif c.args:
+            return None
+        if any(k.arg is None for k in c.keywords):
+            return None
+        items += [(k.arg, k.value) for k in c.keywords]
+        return c.func.value.id, items
+    return None
+
+
+def _as_dict_literal(e):
+    """Dict literal with constant keys for {..} / dict(k=v, ..), else None"""
+    if isinstance(e, ast.Dict) and all(isinstance(k, ast.Constant) for k in e.keys):
+        return e
+    if isinstance(e, ast.Call) and isinstance(e.func, ast.Name) and e.func.id == "dict" and not e.args and all(k.arg for k in e.keywords):
+        return ast.Dict(keys=[ast.Constant(value=k.arg) for k in e.keywords], values=[k.value for k in e.keywords])
+    return None
 
 
 class _Inline(ast.NodeTransformer):
@@ -700,11 +758,19 @@ class _Inline(ast.NodeTransformer):
             else:
                 return node
             bound = True
-        body = _simple_body(r.node)
-        if body is None:
-            return node
         m, errs = bind_args(r.node, node, bound=bound)
         if errs:
+            return node
+        body = _simple_body(r.node)
+        if body is None:
+            # branches on a flag that this call passes as a constant: decide them, then the body may be straight-line
+            consts = {p_: a_.value for p_, a_ in m.items() if isinstance(a_, ast.Constant) and not any(
+                isinstance(n_, ast.Name) and n_.id == p_ and isinstance(n_.ctx, ast.Store) for n_ in ast.walk(r.node))}
+            if consts:
+                pruned = prune(r.node.body, consts)
+                fake = ast.FunctionDef(name=r.node.name, args=r.node.args, body=pruned or [ast.Pass()], decorator_list=[], returns=None)
+                body = _simple_body(fake)
+        if body is None:
             return node
         pos, kwo, _, _ = params_of(r.node)
         env = {}
@@ -1113,6 +1179,9 @@ def sliced_inverse_sites(prog, fi):
     return out
 
 
+CALLEE_DEFAULT = "__callee_default__"      # stands for "the keyword is left out: the callee's own default applies"
+
+
 def bind_call(prog, fi, callee_node, call, bound=False):
     """bind_args, with `**name` resolved through the flow-sensitive environment when it is a dict literal / dict(...) call with
     constant keys.  Returns (mapping, errors, complete) - complete is False when some **kwargs could not be resolved."""
@@ -1128,6 +1197,34 @@ def bind_call(prog, fi, callee_node, call, bound=False):
             items = [(kk.value, v) for kk, v in zip(x.keys, x.values)]
         elif isinstance(x, ast.Call) and isinstance(x.func, ast.Name) and x.func.id == "dict" and not x.args and all(kw.arg for kw in x.keywords):
             items = [(kw.arg, kw.value) for kw in x.keywords]
+        if items is None and isinstance(x, ast.DictComp) and len(x.generators) == 1:
+            # {k: v for k, v in {..literal..}.items() [if v] [if v is not None]}: the literal's entries, possibly filtered
+            g = x.generators[0]
+            it = g.iter
+            if isinstance(it, ast.Call) and isinstance(it.func, ast.Attribute) and it.func.attr == "items" and isinstance(it.func.value, ast.Dict) \
+                    and all(isinstance(kk, ast.Constant) for kk in it.func.value.keys) and isinstance(g.target, ast.Tuple) and len(g.target.elts) == 2 \
+                    and all(isinstance(t_, ast.Name) for t_ in g.target.elts) and isinstance(x.key, ast.Name) and x.key.id == g.target.elts[0].id \
+                    and isinstance(x.value, ast.Name) and x.value.id == g.target.elts[1].id:
+                vname = g.target.elts[1].id
+                kinds = []
+                for c_ in g.ifs:
+                    if isinstance(c_, ast.Name) and c_.id == vname:
+                        kinds.append("truthy")
+                    elif isinstance(c_, ast.Compare) and isinstance(c_.left, ast.Name) and c_.left.id == vname and len(c_.ops) == 1 and isinstance(c_.ops[0], ast.IsNot) \
+                            and isinstance(c_.comparators[0], ast.Constant) and c_.comparators[0].value is None:
+                        kinds.append("notnone")
+                    else:
+                        kinds.append("?")
+                if "?" not in kinds:
+                    items = []
+                    for kk, vv in zip(it.func.value.keys, it.func.value.values):
+                        # getattr(obj, "name", None): the attribute (None when the object does not have it)
+                        if isinstance(vv, ast.Call) and isinstance(vv.func, ast.Name) and vv.func.id == "getattr" and len(vv.args) == 3 and isinstance(vv.args[1], ast.Constant) \
+                                and isinstance(vv.args[2], ast.Constant) and vv.args[2].value is None:
+                            vv = ast.Attribute(value=vv.args[0], attr=vv.args[1].value, ctx=ast.Load())
+                        if "truthy" in kinds:
+                            vv = ast.IfExp(test=copy.deepcopy(vv), body=vv, orelse=ast.Name(id=CALLEE_DEFAULT, ctx=ast.Load()))
+                        items.append((kk.value, vv))
         if items is None and isinstance(x, ast.Call) and isinstance(x.func, ast.Attribute) and x.func.attr in ("model_dump", "dict"):
             inc = kwarg(x, "include")
             if isinstance(inc, (ast.Set, ast.List, ast.Tuple)) and all(isinstance(e_, ast.Constant) and isinstance(e_.value, str) for e_ in inc.elts):
@@ -1546,6 +1643,23 @@ def handover(prog, fi, callee_qual, want, depth=1):
             if a is None:
                 out.append((c, p_, None, f"argument for `{p_}` could not be expressed in the caller's scope"))
                 continue
+            if isinstance(a, ast.IfExp) and isinstance(a.orelse, ast.Name) and a.orelse.id == CALLEE_DEFAULT:
+                inner = src(a.body, 120)
+                # dropping a falsy value matters where 0 / 0.0 / False is a legitimate setting: parameters whose default is a float or a bool
+                # (an overlap of 0.0, zero_phase=False), or an axis; an empty string / a zero length is not a setting anyone loses
+                cal = prog.functions.get(callee_qual) or next((f_ for q_, f_ in prog.functions.items() if q_.endswith("." + callee_qual)), None)
+                dflt = None
+                if cal is not None:
+                    a_ = cal.node.args
+                    pos_ = [x.arg for x in a_.posonlyargs + a_.args]
+                    dmap = dict(zip(pos_[len(pos_) - len(a_.defaults):], a_.defaults))
+                    dmap.update({k.arg: d for k, d in zip(a_.kwonlyargs, a_.kw_defaults) if d is not None})
+                    dflt = dmap.get(p_)
+                legit = isinstance(dflt, ast.Constant) and (isinstance(dflt.value, (float, bool)) or (isinstance(dflt.value, int) and p_ in ("axis",)))
+                if legit:
+                    out.append((c, p_, False, f"`{p_}` <- `{inner}` only when that value is truthy: a legitimate falsy setting (0, 0.0, False) is dropped and the callee's default ({src(dflt)}) is used instead"))
+                    continue
+                a = a.body
             txt = src(a, 120)
             if txt in sources:
                 # an attribute source must not be stale
